@@ -484,6 +484,9 @@ func (g *c05Gen) randomOp() c05Op {
 			}
 			return c05Op{T: "regpay", F: a, A: price}
 		}
+		if r.chance(15) {
+			return c05Op{T: "reg", F: a, To: pick(r, c05Signers)} // somebody else's key: no witness is asked for (Echidna)
+		}
 		return c05Op{T: "reg", F: a}
 	case x < 68:
 		if a == c05AValidators {
@@ -652,7 +655,17 @@ func c05RunCase(co *caseOut, in c05Input, gen func(c *c05Chain, run *c05Runner) 
 		return nil
 	}
 	if viol != nil {
-		co.violation("history", fmt.Sprintf("block %d: %s", violAt, strings.Join(viol, "; ")), in, c05Summary(run.blocks, violAt))
+		// the violated clauses first: reports are grouped by the beginning of the note
+		var clauses []string
+		seen := map[string]bool{}
+		for _, v := range viol {
+			c, _, _ := strings.Cut(v, ":")
+			if !seen[c] {
+				seen[c] = true
+				clauses = append(clauses, c)
+			}
+		}
+		co.violation("history", fmt.Sprintf("%-40s| block %d: %s", strings.Join(clauses, ","), violAt, strings.Join(viol, "; ")), in, c05Summary(run.blocks, violAt))
 	}
 	tag, nontrivial := c05Tag(in.Ops, run.blocks)
 	co.add("history", tag, nontrivial, in, c05Summary(run.blocks, 0), c05CoqCase(c, in, run.blocks))
